@@ -580,6 +580,14 @@ def oracle_world(w):
                 sig = "nonadmin-selfupdate-sweeps-proposal"
             fail("C05", sig, i, f"`{cmd}`: c{c} applied commit {n_ev} by c{ev['sender']}, who is not an admin in the state it applies to (admins [{parent[1]}]), and {changed} changed: {parent} -> {gdata(f)}")
             return
+        # "an admin's own operation changes … the fields updated": an `update_group_data` commit changes only the fields its call named
+        if line[:1] == ["data"] and not ev.get("adv"):
+            alias = {"desc": "description", "nid": "nostr_group_id"}
+            named_fields = {alias.get(x, x) for x in line[2:-1:2]}
+            extra = [x for x in changed if x not in named_fields and x != "members"]
+            if extra:
+                fail("C05", "admin-op-not-exact", i, f"`{cmd}`: c{c} applied commit {n_ev} = `{' '.join(line)}` by c{ev['sender']}, which names {sorted(named_fields)} but also changed {extra}: {parent} -> {gdata(f)}")
+                return
         # "an admin's own operation changes exactly what it names … the only automatic case being an admin committing a member's
         # own request to leave": the roster change of the applied commit against what its operation named
         named = None
